@@ -13,3 +13,5 @@ for p in "$@"; do
   echo "== $p exit=$code"; echo "$out" | grep -E "^  rule=|VIOLATION|UNDECIDED|KNOWN" | cut -c1-400
 done
 git checkout -- . && git clean -fdq
+# restore the evidence files from the clean tree
+for p in "$@"; do (cd /verif && ./check "$p" quick >/dev/null 2>&1); done
